@@ -226,12 +226,16 @@ class Gen:
                     ops += self.operand(k)
         return Inst(self.opv[entry["name"]], entry["name"], rtype, rid, ops)
 
-    def spec_op(self):
+    def nestable(self):
+        """opcodes OpSpecConstantOp can embed: no context dependent operand kinds"""
+        return [r for r in self.core if not any(k in ("LiteralContextDependentNumber", "PairLiteralIntegerIdRef", "LiteralSpecConstantOpInteger") for k, _ in r["ops"])]
+
+    def spec_op(self, force=None, many=None):
         """nested opcode + its operands (result type / id skipped), quantifiers honoured"""
-        ok = [r for r in self.core if not any(k in ("LiteralContextDependentNumber", "PairLiteralIntegerIdRef", "LiteralSpecConstantOpInteger") for k, _ in r["ops"])]
+        ok = self.nestable()
         names = ["SNegate", "IAdd", "CompositeExtract", "CompositeInsert", "VectorShuffle", "Select", "AccessChain", "Not", "UConvert", "ImageSampleImplicitLod", "Load"]
         pool = [r for r in ok if r["name"] in names]
-        r = self.rnd.choice(pool if self.rnd.random() < 0.8 else ok)
+        r = force if force is not None else self.rnd.choice(pool if self.rnd.random() < 0.8 else ok)
         out = [Op("w", self.vix["LiteralSpecConstantOpInteger"], self.opv[r["name"]])]
         stop = False
         for k, q in r["ops"]:
@@ -247,7 +251,7 @@ class Gen:
                 else:
                     stop = True
             else:
-                for _ in range(self.rnd.choice([0, 1, 2, 4])):
+                for _ in range(self.rnd.choice([0, 1, 2, 4]) if many is None else many):
                     out += self.operand(k)
         return out
 
